@@ -188,7 +188,7 @@ func (encryptor *HashQuery) OnBind(ctx context.Context, statement sqlparser.Stat
 			if err != nil {
 				return values, false, err
 			}
-			if index >= len(values) {
+			if index < 0 || index >= len(values) {
 				logrus.WithFields(logrus.Fields{"placeholder": value.Val, "index": index, "values": len(values)}).
 					Warning("Invalid placeholder index")
 				return values, false, encryptor_base.ErrInvalidPlaceholder
